@@ -582,7 +582,16 @@ def one_config(ctx, p, mode, scripts, rnd, tag, race, cov):
     if cov["mech"].get("group_mismatch"):
         raise vlib.Inconclusive("StreamerResponse.Group differs from the writer's control group (pinned beyond the property)")
     t_v = time.time()
-    stats, rejected = validate(ctx, p, mode, items, tag)
+    # the log-level oracle first: scenarios it already finds contradictory are confirmed by TLC one by
+    # one (a failing tree is reported quickly); otherwise everything goes through TLC
+    suspects = [it for it in items if classify(p, mode, it[1], len(it[1]) - 1)[0]]
+    if suspects:
+        stats, rejected = validate(ctx, p, mode, suspects[:3], tag + "_sus", chunk=1)
+        if not rejected:
+            raise vlib.Inconclusive("oracle disagreement: RelayTrace accepted a trace in which %s (%s/%s)" % (
+                classify(p, mode, suspects[0][1], len(suspects[0][1]) - 1)[1], p["name"], mode))
+    else:
+        stats, rejected = validate(ctx, p, mode, items, tag)
     t_v = time.time() - t_v
     if not rejected:
         for scn, evs in items:
